@@ -9,6 +9,7 @@ from engine_m.session import Binding, Inconclusive
 from .common import *
 
 EVIDENCE = dict(assumptions=[
+    'retained data: after any protocol-order prefix of revocations (top m commitment indices, SHA-256 uninterpreted, symbolic seed) every revoked secret is recoverable from the counterparty-secret store',
     'kernel only (narrow): justice claims are re-issued with adequate, monotonically rising fees and on an urgency schedule tied to the counterparty CSV height; revoked outputs are classified malleable so that fee bumping applies',
     'detection of the revoked transaction, secret derivation (SHA-256), package construction, witness / script validity, HTLC-transaction follow-up, reload and block-delivery styles are outside the claim',
     'transaction weight ranges over a stated finite set; inputs <= 21e14 sat; fee estimator = arbitrary u32'])
@@ -19,6 +20,8 @@ def run(S):
     from . import C07, C08
     S.alias = {'C07.a': 'C06.b.first_fee', 'C07.b': 'C06.b.bump', 'C07.c': 'C06.b.output', 'C07.d': 'C06.b.locktime', 'C07.f': 'C06.b.merge', 'C08.d': 'C06.b.timer'}
     W = C07.weights(S)
+    from .secrets import honest_sequence
+    honest_sequence(S, D, 'C06.a.secrets', 8 if S.tier == 'quick' else 32)
     revoked_classification(S, D)
     C07.fee_from_spent(S, D, W)
     C07.bump(S, D, W)
